@@ -2,40 +2,133 @@ import DoviModel.Model.PqTable
 /-!
 # Kernel evaluation of the PQ certificate checkers (property C19)
 
-Core Lean only.  Every theorem here is closed by `decide +kernel`: the kernel evaluates the integer checkers of
-`Model/PqTable.lean` (big-integer powers, GMP-accelerated `Nat` arithmetic) on the whole table.  The lifting to
-statements about the real function `nitsToPq` is in `Proofs/PqReal.lean`.
+Core Lean only.  Every `*_c<i>` theorem here is closed by `decide +kernel`: the kernel evaluates the integer
+checkers of `Model/PqTable.lean` (big-integer powers, GMP-accelerated `Nat` arithmetic) on a slice of the table;
+the slices are separate theorems only so that they are checked in parallel.  The lifting to statements about the
+real function `nitsToPq` is in `Proofs/PqReal.lean`.
 -/
 namespace Dovi.PqTable
 
+/-- `f` holds on `lo, lo+1, .., lo+n-1`.  (Counting down, so that inside the kernel the argument of `f` is the sum
+of two literals rather than a tower of `+ 1`.) -/
+def allRange (f : Nat → Bool) (lo : Nat) : Nat → Bool
+  | 0 => true
+  | n + 1 => withNat (lo + n) f && allRange f lo n
+
+theorem allRange_ok {f : Nat → Bool} {lo n j : Nat} (h : allRange f lo n = true) (h1 : lo ≤ j) (h2 : j < lo + n) :
+    f j = true := by
+  induction n with
+  | zero => omega
+  | succ n ih =>
+    simp only [allRange, withNat_eq, Bool.and_eq_true] at h
+    by_cases hj : j = lo + n
+    · subst hj; exact h.1
+    · exact ih h.2 (by omega)
+
+theorem bnd_c0 : allRange bndCheck 0 342 = true := by decide +kernel
+theorem bnd_c1 : allRange bndCheck 342 342 = true := by decide +kernel
+theorem bnd_c2 : allRange bndCheck 684 342 = true := by decide +kernel
+theorem bnd_c3 : allRange bndCheck 1026 342 = true := by decide +kernel
+theorem bnd_c4 : allRange bndCheck 1368 342 = true := by decide +kernel
+theorem bnd_c5 : allRange bndCheck 1710 342 = true := by decide +kernel
+theorem bnd_c6 : allRange bndCheck 2052 342 = true := by decide +kernel
+theorem bnd_c7 : allRange bndCheck 2394 342 = true := by decide +kernel
+theorem bnd_c8 : allRange bndCheck 2736 342 = true := by decide +kernel
+theorem bnd_c9 : allRange bndCheck 3078 342 = true := by decide +kernel
+theorem bnd_c10 : allRange bndCheck 3420 342 = true := by decide +kernel
+theorem bnd_c11 : allRange bndCheck 3762 333 = true := by decide +kernel
+
 /-- all 4095 tie-point certificates check -/
-theorem bnd_all : (List.range 4095).all bndCheck = true := by decide +kernel
+theorem bnd_ok {j : Nat} (h0 : 0 ≤ j) (h : j < 4095) : bndCheck j = true := by
+  if h0 : j < 342 then exact allRange_ok bnd_c0 (by omega) (by omega) else
+  if h1 : j < 684 then exact allRange_ok bnd_c1 (by omega) (by omega) else
+  if h2 : j < 1026 then exact allRange_ok bnd_c2 (by omega) (by omega) else
+  if h3 : j < 1368 then exact allRange_ok bnd_c3 (by omega) (by omega) else
+  if h4 : j < 1710 then exact allRange_ok bnd_c4 (by omega) (by omega) else
+  if h5 : j < 2052 then exact allRange_ok bnd_c5 (by omega) (by omega) else
+  if h6 : j < 2394 then exact allRange_ok bnd_c6 (by omega) (by omega) else
+  if h7 : j < 2736 then exact allRange_ok bnd_c7 (by omega) (by omega) else
+  if h8 : j < 3078 then exact allRange_ok bnd_c8 (by omega) (by omega) else
+  if h9 : j < 3420 then exact allRange_ok bnd_c9 (by omega) (by omega) else
+  if h10 : j < 3762 then exact allRange_ok bnd_c10 (by omega) (by omega) else
+  exact allRange_ok bnd_c11 (by omega) (by omega)
+
+theorem nits_c0 : allRange nitsCheck 0 834 = true := by decide +kernel
+theorem nits_c1 : allRange nitsCheck 834 834 = true := by decide +kernel
+theorem nits_c2 : allRange nitsCheck 1668 834 = true := by decide +kernel
+theorem nits_c3 : allRange nitsCheck 2502 834 = true := by decide +kernel
+theorem nits_c4 : allRange nitsCheck 3336 834 = true := by decide +kernel
+theorem nits_c5 : allRange nitsCheck 4170 834 = true := by decide +kernel
+theorem nits_c6 : allRange nitsCheck 5004 834 = true := by decide +kernel
+theorem nits_c7 : allRange nitsCheck 5838 834 = true := by decide +kernel
+theorem nits_c8 : allRange nitsCheck 6672 834 = true := by decide +kernel
+theorem nits_c9 : allRange nitsCheck 7506 834 = true := by decide +kernel
+theorem nits_c10 : allRange nitsCheck 8340 834 = true := by decide +kernel
+theorem nits_c11 : allRange nitsCheck 9174 827 = true := by decide +kernel
 
 /-- every integer nits value 0..10000 lies in the certified bracket of its table code -/
-theorem nits_all : (List.range 10001).all nitsCheck = true := by decide +kernel
+theorem nits_ok {j : Nat} (h0 : 0 ≤ j) (h : j < 10001) : nitsCheck j = true := by
+  if h0 : j < 834 then exact allRange_ok nits_c0 (by omega) (by omega) else
+  if h1 : j < 1668 then exact allRange_ok nits_c1 (by omega) (by omega) else
+  if h2 : j < 2502 then exact allRange_ok nits_c2 (by omega) (by omega) else
+  if h3 : j < 3336 then exact allRange_ok nits_c3 (by omega) (by omega) else
+  if h4 : j < 4170 then exact allRange_ok nits_c4 (by omega) (by omega) else
+  if h5 : j < 5004 then exact allRange_ok nits_c5 (by omega) (by omega) else
+  if h6 : j < 5838 then exact allRange_ok nits_c6 (by omega) (by omega) else
+  if h7 : j < 6672 then exact allRange_ok nits_c7 (by omega) (by omega) else
+  if h8 : j < 7506 then exact allRange_ok nits_c8 (by omega) (by omega) else
+  if h9 : j < 8340 then exact allRange_ok nits_c9 (by omega) (by omega) else
+  if h10 : j < 9174 then exact allRange_ok nits_c10 (by omega) (by omega) else
+  exact allRange_ok nits_c11 (by omega) (by omega)
+
+theorem minLum_c0 : allRange minLumCheck 0 834 = true := by decide +kernel
+theorem minLum_c1 : allRange minLumCheck 834 834 = true := by decide +kernel
+theorem minLum_c2 : allRange minLumCheck 1668 834 = true := by decide +kernel
+theorem minLum_c3 : allRange minLumCheck 2502 834 = true := by decide +kernel
+theorem minLum_c4 : allRange minLumCheck 3336 834 = true := by decide +kernel
+theorem minLum_c5 : allRange minLumCheck 4170 834 = true := by decide +kernel
+theorem minLum_c6 : allRange minLumCheck 5004 834 = true := by decide +kernel
+theorem minLum_c7 : allRange minLumCheck 5838 834 = true := by decide +kernel
+theorem minLum_c8 : allRange minLumCheck 6672 834 = true := by decide +kernel
+theorem minLum_c9 : allRange minLumCheck 7506 834 = true := by decide +kernel
+theorem minLum_c10 : allRange minLumCheck 8340 834 = true := by decide +kernel
+theorem minLum_c11 : allRange minLumCheck 9174 827 = true := by decide +kernel
 
 /-- every min-luminance k/10000 nits, k = 0..10000, lies in the certified bracket of its table code -/
-theorem minLum_all : (List.range 10001).all minLumCheck = true := by decide +kernel
+theorem minLum_ok {j : Nat} (h0 : 0 ≤ j) (h : j < 10001) : minLumCheck j = true := by
+  if h0 : j < 834 then exact allRange_ok minLum_c0 (by omega) (by omega) else
+  if h1 : j < 1668 then exact allRange_ok minLum_c1 (by omega) (by omega) else
+  if h2 : j < 2502 then exact allRange_ok minLum_c2 (by omega) (by omega) else
+  if h3 : j < 3336 then exact allRange_ok minLum_c3 (by omega) (by omega) else
+  if h4 : j < 4170 then exact allRange_ok minLum_c4 (by omega) (by omega) else
+  if h5 : j < 5004 then exact allRange_ok minLum_c5 (by omega) (by omega) else
+  if h6 : j < 5838 then exact allRange_ok minLum_c6 (by omega) (by omega) else
+  if h7 : j < 6672 then exact allRange_ok minLum_c7 (by omega) (by omega) else
+  if h8 : j < 7506 then exact allRange_ok minLum_c8 (by omega) (by omega) else
+  if h9 : j < 8340 then exact allRange_ok minLum_c9 (by omega) (by omega) else
+  if h10 : j < 9174 then exact allRange_ok minLum_c10 (by omega) (by omega) else
+  exact allRange_ok minLum_c11 (by omega) (by omega)
+
+theorem thr_c0 : allRange thrCheck 1 199 = true := by decide +kernel
 
 /-- the rounding thresholds 50, 100, .., 9950 nits -/
-theorem thr_all : ((List.range 200).drop 1).all thrCheck = true := by decide +kernel
+theorem thr_ok {j : Nat} (h0 : 1 ≤ j) (h : j < 200) : thrCheck j = true := by
+  exact allRange_ok thr_c0 (by omega) (by omega)
 
-theorem round100_all : (List.range 4096).all round100Check = true := by decide +kernel
-theorem round1000_all : (List.range 4096).all round1000Check = true := by decide +kernel
+theorem round100_c0 : allRange round100Check 0 2048 = true := by decide +kernel
+theorem round100_c1 : allRange round100Check 2048 2048 = true := by decide +kernel
 
-theorem bnd_ok {j : Nat} (h : j < 4095) : bndCheck j = true :=
-  List.all_eq_true.mp bnd_all j (List.mem_range.mpr h)
-theorem nits_ok {n : Nat} (h : n ≤ 10000) : nitsCheck n = true :=
-  List.all_eq_true.mp nits_all n (List.mem_range.mpr (by omega))
-theorem minLum_ok {k : Nat} (h : k ≤ 10000) : minLumCheck k = true :=
-  List.all_eq_true.mp minLum_all k (List.mem_range.mpr (by omega))
-theorem thr_ok {i : Nat} (h1 : 1 ≤ i) (h2 : i ≤ 199) : thrCheck i = true :=
-  List.all_eq_true.mp thr_all i (by
-    rw [List.mem_drop_iff_getElem?]  -- placeholder
-    sorry)
-theorem round100_ok {c : Nat} (h : c ≤ 4095) : round100Check c = true :=
-  List.all_eq_true.mp round100_all c (List.mem_range.mpr (by omega))
-theorem round1000_ok {c : Nat} (h : c ≤ 4095) : round1000Check c = true :=
-  List.all_eq_true.mp round1000_all c (List.mem_range.mpr (by omega))
+/-- the 100-nits rounding of every code is consistent with the thresholds -/
+theorem round100_ok {j : Nat} (h0 : 0 ≤ j) (h : j < 4096) : round100Check j = true := by
+  if h0 : j < 2048 then exact allRange_ok round100_c0 (by omega) (by omega) else
+  exact allRange_ok round100_c1 (by omega) (by omega)
+
+theorem round1000_c0 : allRange round1000Check 0 2048 = true := by decide +kernel
+theorem round1000_c1 : allRange round1000Check 2048 2048 = true := by decide +kernel
+
+/-- the 1000-nits rounding of every code is consistent with the thresholds -/
+theorem round1000_ok {j : Nat} (h0 : 0 ≤ j) (h : j < 4096) : round1000Check j = true := by
+  if h0 : j < 2048 then exact allRange_ok round1000_c0 (by omega) (by omega) else
+  exact allRange_ok round1000_c1 (by omega) (by omega)
 
 end Dovi.PqTable
